@@ -119,3 +119,62 @@ def run(ctx):
                 true_edge = sb == sw["otherwise"]
                 good = good or (d[1] == "Ne" and not true_edge) or (d[1] == "Eq" and true_edge)
         ctx.ob(rid, "ok-only-for-one-candidate", good, "" if good else "pgn_to_bb can return Ok without testing that exactly one legal move matches", ctx.where(f, line))
+
+
+def r4_disambiguation_candidates(ctx):
+    """the like pieces considered for disambiguation are legal moves"""
+    rid = "C14.R4"
+    ctx.rule(rid, "the candidate set used for SAN disambiguation is filtered by legality on every accepting path of its filter predicates (a pinned like piece must not force a disambiguation)", floor=1)
+    from .c13 import consulted_fields
+    from ..paths import returning_paths, NotLoopFree
+    prog = ctx.prog
+    f = ctx.fn(rid, BB + "uci_to_pgn")
+    ex = Exprs(f)
+    # the chain  moves.into_iter().filter(..).filter(..).filter(..).collect()  feeding the disambiguation
+    filters = []
+    for b in f["blocks"]:
+        t = b["term"]
+        if not b["cleanup"] and t["k"] == "call" and (t["callee"].get("key") or "").endswith("Iterator::filter"):
+            for a in t["args"]:
+                tr = ex.operand(a)
+                if tr[0] == "agg" and tr[1] == "closure":
+                    filters.append(tr[2])
+    if not filters:
+        ctx.lost(rid, "filter closures over the candidate moves in uci_to_pgn")
+        return
+    # at least one filter predicate must require legality on every accepting path
+    strict = []
+    for ck in filters:
+        g = prog.fns.get(ck)
+        if g is None:
+            continue
+        try:
+            pes = returning_paths(g)
+        except NotLoopFree:
+            continue
+        acc = []
+        for pe in pes:
+            r = pe.ret()
+            try:
+                from ..expr import fold
+                if fold(r) == 0:
+                    continue
+            except Exception:
+                pass
+            trees = [d for (d, c, b, ty) in pe.conds] + [r]
+            legal = any(x[0] == "call" and x[1] in (BB + "is_move_legal",) for t in trees for x in leaves(t))
+            acc.append(legal)
+        if acc and all(acc):
+            strict.append(ck)
+    ok = bool(strict)
+    ctx.ob(rid, "candidates-are-legal-moves", ok,
+           "" if ok else "none of the %d filters that build the disambiguation candidate list requires Bitboard::is_move_legal on every accepting path: a like piece that is pinned (its move is illegal) is counted and forces a superfluous file/rank letter" % len(filters),
+           ctx.where(f), sample={"filters": len(filters), "legality_filters": [s.rsplit("::", 1)[-1] for s in strict]})
+
+
+_run_before_r4 = run
+
+
+def run(ctx):
+    _run_before_r4(ctx)
+    r4_disambiguation_candidates(ctx)
